@@ -138,6 +138,7 @@ type FnCtx struct {
 	finalVals   map[string]envVar
 	calledNames map[string]bool // names used in called("...") expressions of this function's contract
 	calledPairs map[[2]string]bool
+	calledWith  map[string]calledWithSpec
 	eptr        map[string]types.Type // element sorts for which pointers to slice elements are created in this function
 	eptrLeaked  map[string]bool
 	curClosure  *Closure // closure being called by contract (for naming its captured variables)
